@@ -8,8 +8,8 @@ import GitAiModel.Props.C04
 namespace GitAi.Sys
 
 /-- **no invention.** In every valid history (any interleaving of human edits, agent edits by any
-    sessions, checkpoints, arbitrary staging and commits — see `ValidOps2` for the one excluded
-    region), whatever a commit's note lists under session `s` is a line whose ghost author is `s`:
+    sessions — at any time, also between a partial commit and the next checkpoint —, restores of HEAD
+    lines, checkpoints, arbitrary staging and commits; `ValidOps2`), whatever a commit's note lists under session `s` is a line whose ghost author is `s`:
     session `s` introduced that very content. Lines a person wrote (ghost `none`) and lines of
     another session are never listed under `s`. -/
 theorem no_invention (h0 : List Nat) (g0 : Nat → Author) (hnd : h0.Nodup)
